@@ -225,6 +225,7 @@ BINDINGS = collections.OrderedDict([
     ('for-target', ['for {N} in []:', '    pass']),
     ('with-target', ['with open("f") as {N}:', '    pass']),
     ('except-name', ['try:', '    pass', 'except Exception as {N}:', '    pass']),
+    ('except-star-name', ['try:', '    pass', 'except* Exception as {N}:', '    pass']),
     ('comp-var', ['[0 for {N} in []]']),
     ('def', ['def {N}():', '    pass']),
     ('class', ['class {N}:', '    pass']),
